@@ -654,6 +654,7 @@ class C18(Check):
     level = "exploration"
     case_timeout_s = 600  # whole runs with plots, on a loaded machine
     quick_budget_s = 50.0
+    quick_min_runs = 2000
     thorough_budget_s = 840.0
     batch = 20
     rule = (
